@@ -74,4 +74,16 @@ CHECKS["C15"] = dict(level="exploration", technique="TLC-generated parameter swe
          "observations; GEN sweeps density ratios 1 +- 2^-k (k=2..30) on both sides of the code's near-uniform threshold, far ratios, "
          "4 intervals and n from 1 to 1e5; the ratio obligation is judged against an a-priori rounding bound of the differences.",
     note="Relational oracle (no exact node positions); the bound on ratio constancy is derived from the rounding of differences, not tuned.", ref="8/C15")
+CHECKS["C13"] = dict(level="exploration", technique="TLA+ abstract syntax + exact rational semantics + precedence-aware printer (Evaluator.tla); TLC-generated formulas judged by TLC",
+    text="Arithmetic trees are enumerated by TLC (all of depth <= 2, depth 3 with a leaf operand; all depth-3 trees in thorough) and printed "
+         "three ways (minimal parentheses by the documented priorities, white space, fully parenthesised); each printing must evaluate to "
+         "the exact rational value of the tree. The documented functions are checked against the C library on arguments inside and outside "
+         "their domains (value or exception), 35 malformed formulas must be rejected, and formulas on which the documentation is silent "
+         "may be rejected but never crash nor parse differently.",
+    note="getCxxFormula, resolveDependencies and parameter rewriting are not covered; function values have a libm oracle in the harness.", ref="8/C13")
+CHECKS["C14"] = dict(level="exploration", technique="symbolic derivative D(e,x) in TLA+ with exact rational evaluation + finite differences for library functions, judged by TLC",
+    text="The differentiation rules are written on the TLA+ syntax trees; for every generated arithmetic tree the derivative returned by "
+         "differentiate() with respect to x and y, evaluated at (2,3), must equal the exact rational value of D(e,x); for each documented "
+         "function the derivative must either throw or agree with a Richardson finite difference of the evaluator's own values.",
+    note="Exponents of ** are variable-free positive integers in the exact fragment; function derivatives have a finite-difference oracle (1e-6).", ref="8/C14")
 NOT_APPLICABLE = {}
